@@ -382,6 +382,10 @@ func ctSigners(w *World, class int, stranger *keys.PrivateKey) ([]Signer, string
 func (e *ctEngine) run() {
 	t := e.r.T
 	ns := []int{1, 3, 4, 7}
+	if !Thorough() && Chance(t, "rareN", 12) {
+		// sizes with 3k+2 members and the larger even one, now and then
+		ns = []int{2, 5, 6}
+	}
 	if Prop() == "C05" {
 		ns = []int{1, 4, 7}
 	}
